@@ -189,7 +189,8 @@ struct WorkerStats {
   std::vector<uint64_t> fps;           // fingerprints of non-trivial runs
   std::vector<uint64_t> states;
   std::vector<std::string> samples;
-  long simClockCalls = 0;
+  long simClockCalls = 0, auditCalls = 0, auditOffences = 0;
+  std::string auditFirst;
   long curIndex = -1;
   std::string outPrefix;
   double wall = 0;
@@ -215,6 +216,7 @@ void writeSummary() {
      << ",\"violations\":" << g_ws.violations << ",\"known\":" << g_ws.known
      << ",\"det_rechecked\":" << g_ws.detRechecked << ",\"det_mismatch\":" << g_ws.detMismatch
      << ",\"clock_calls\":" << g_ws.simClockCalls << ",\"wall\":" << g_ws.wall << ",\"capped\":" << (g_ws.capped ? "true" : "false")
+     << ",\"audit_calls\":" << g_ws.auditCalls << ",\"audit_offences\":" << g_ws.auditOffences << ",\"audit_first\":\"" << jesc(g_ws.auditFirst) << "\""
      << ",\"last_index\":" << g_ws.curIndex;
   auto dumpMap = [&](const char* name, const std::map<std::string, long>& m) {
     js << ",\"" << name << "\":{"; bool first = true;
@@ -274,6 +276,8 @@ int cmdWorker(int argc, char** argv) {
     if (dumpHashes) { printf("H %ld %llu %d\n", i, static_cast<unsigned long long>(o.hash), o.violated ? 1 : 0); }
     g_ws.steps += ctx.step + 1; g_ws.okSteps += ctx.okSteps; g_ws.rejSteps += ctx.rejSteps;
     g_ws.simClockCalls += g_clock.calls;
+    g_ws.auditCalls += g_audit.calls; g_ws.auditOffences += g_audit.offences;
+    if (g_audit.offences && g_ws.auditFirst.empty()) g_ws.auditFirst = "index " + std::to_string(i) + ": " + g_audit.first;
     for (auto& kv : ctx.faults) { g_ws.faultFired[kv.first] += kv.second; if (kv.second) ++g_ws.faultRuns[kv.first]; }
     for (auto& kv : ctx.probes) g_ws.probes[kv.first] += kv.second;
     if (g_ws.states.size() > (1u << 20)) {
@@ -447,6 +451,7 @@ namespace dsim { bool isKnownFinding(const std::string& prop, const std::string&
 int main(int argc, char** argv) {
   if (argc < 2) { fprintf(stderr, "usage: simharness worker|plan|investigate|replay|info|merge ...\n"); return 2; }
   loadKnown();
+  installParamAudit();
   if (const char* e = getenv("DSIM_CPU_LIMIT")) g_cpuLimit = atol(e);
   if (const char* e = getenv("DSIM_TMP")) g_tmpDir = e;
   std::string c = argv[1];
